@@ -4,7 +4,9 @@ import (
 	"errors"
 	"fmt"
 	"io"
+	"runtime"
 	"sync"
+	"time"
 )
 
 // pipe.go: the harness transport. Two ends implementing ssh.VerifPacketConn,
@@ -73,7 +75,13 @@ type Pipe struct {
 	// Observe, if set, is called under the pipe mutex for every event, in log
 	// order. It must not call back into the pipe.
 	Observe func(ev *Ev)
-	ends    [2]*End
+	// AfterWrite, if set, is called inside WritePacket after the packet has
+	// been queued and logged (pipe mutex released) and before WritePacket
+	// returns to its caller. It may use the pipe.
+	AfterWrite func(end int, pkt []byte, wseq int64)
+	ends       [2]*End
+	lastRead   [2]int64 // wseq of the packet most recently returned to end i
+	consumed   [2]int64 // highest wseq end i has finished with (it re-entered ReadPacket afterwards)
 }
 
 // End is one side of a Pipe.
@@ -87,7 +95,7 @@ var errPipeClosed = errors.New("harness pipe: closed")
 // NewPipe makes a pipe whose queues hold up to capacity packets per direction
 // (writers block beyond that, like a socket buffer).
 func NewPipe(capacity int) *Pipe {
-	p := &Pipe{cap: capacity, closedBy: -1}
+	p := &Pipe{cap: capacity, closedBy: -1, lastRead: [2]int64{-1, -1}, consumed: [2]int64{-1, -1}}
 	p.cond = sync.NewCond(&p.mu)
 	p.ends[0] = &End{p, 0}
 	p.ends[1] = &End{p, 1}
@@ -139,18 +147,53 @@ func (e *End) write(cp []byte) error { _, err := e.writeSeq(cp); return err }
 func (e *End) writeSeq(cp []byte) (int64, error) {
 	p := e.p
 	p.mu.Lock()
-	defer p.mu.Unlock()
 	o := 1 - e.id
 	for !p.closed && len(p.q[o]) >= p.cap {
 		p.cond.Wait()
 	}
 	if p.closed {
+		p.mu.Unlock()
 		return -1, errPipeClosed
 	}
 	seq := p.emit(Ev{Kind: EvWrite, End: e.id, Pkt: cp})
 	p.q[o] = append(p.q[o], qitem{cp, seq})
 	p.cond.Broadcast()
+	hook := p.AfterWrite
+	p.mu.Unlock()
+	if hook != nil {
+		hook(e.id, cp, seq)
+	}
 	return seq, nil
+}
+
+// WaitConsumed waits until end has finished processing the packet written
+// with sequence number wseq (it entered ReadPacket again after reading it) or
+// the pipe is closed. The wait is bounded (the reader may legitimately need
+// something the caller holds, e.g. a channel's write lock on its way out):
+// at most maxPolls short polls, and at most afterRead more once the reader
+// has been handed the packet. It reports whether the packet was consumed.
+func (p *Pipe) WaitConsumed(end int, wseq int64, maxPolls, afterRead int) bool {
+	p.mu.Lock()
+	defer p.mu.Unlock()
+	for k := 0; k < maxPolls && !p.closed && p.consumed[end] < wseq; k++ {
+		if p.lastRead[end] >= wseq {
+			if afterRead--; afterRead < 0 {
+				break
+			}
+		}
+		p.mu.Unlock()
+		runtime.Gosched()
+		time.Sleep(20 * time.Microsecond)
+		p.mu.Lock()
+	}
+	return p.consumed[end] >= wseq
+}
+
+// WasRead reports whether end has been handed the packet written as wseq.
+func (p *Pipe) WasRead(end int, wseq int64) bool {
+	p.mu.Lock()
+	defer p.mu.Unlock()
+	return p.lastRead[end] >= wseq
 }
 
 // ReadPacket returns the next packet as a fresh slice, or io.EOF once the
@@ -160,6 +203,10 @@ func (e *End) ReadPacket() ([]byte, error) {
 	p.mu.Lock()
 	defer p.mu.Unlock()
 	p.emit(Ev{Kind: EvEnter, End: e.id})
+	if p.lastRead[e.id] > p.consumed[e.id] {
+		p.consumed[e.id] = p.lastRead[e.id]
+		p.cond.Broadcast()
+	}
 	for {
 		if p.closed && p.closedBy == e.id {
 			break
@@ -169,6 +216,7 @@ func (e *End) ReadPacket() ([]byte, error) {
 			p.q[e.id][0] = qitem{}
 			p.q[e.id] = p.q[e.id][1:]
 			p.emit(Ev{Kind: EvRead, End: e.id, Pkt: it.pkt, WSeq: it.wseq, stored: p.log[it.wseq].Pkt})
+			p.lastRead[e.id] = it.wseq
 			p.cond.Broadcast()
 			return it.pkt, nil
 		}
